@@ -69,19 +69,32 @@ def W.root (w : W) : String := w.2.2.2
 
 def writesOf (i : Nat) : List W := (writes.filter (fun w => w.1 == i)).map (·.2)
 
-def certificate (roots : List Nat) (ok : W → Bool) : Bool :=
+/-- the checker, for an arbitrary per-node predicate -/
+def certificateP (roots : List Nat) (p : Nat → Bool) : Bool :=
   let s := closure roots
-  closed s && roots.all (fun r => s.contains r) && s.all (fun i => (writesOf i).all ok)
+  closed s && roots.all (fun r => s.contains r) && s.all p
 
 /-- the checker is sound: a passing certificate speaks about every path in the graph -/
-theorem certified {roots : List Nat} {ok : W → Bool} (h : certificate roots ok = true) :
-    ∀ j, Reach roots j → ∀ w ∈ writesOf j, ok w = true := by
-  simp only [certificate, Bool.and_eq_true] at h
+theorem certifiedP {roots : List Nat} {p : Nat → Bool} (h : certificateP roots p = true) :
+    ∀ j, Reach roots j → p j = true := by
+  simp only [certificateP, Bool.and_eq_true] at h
   obtain ⟨⟨hc, hr⟩, hw⟩ := h
-  intro j hj w hwj
+  intro j hj
   have hjs : j ∈ closure roots :=
     reach_sub hc (fun r hr' => by simpa using List.all_eq_true.mp hr r hr') j hj
-  exact List.all_eq_true.mp (List.all_eq_true.mp hw j hjs) w hwj
+  exact List.all_eq_true.mp hw j hjs
+
+def certificate (roots : List Nat) (ok : W → Bool) : Bool :=
+  certificateP roots (fun i => (writesOf i).all ok)
+
+theorem certified {roots : List Nat} {ok : W → Bool} (h : certificate roots ok = true) :
+    ∀ j, Reach roots j → ∀ w ∈ writesOf j, ok w = true := by
+  intro j hj w hwj
+  exact List.all_eq_true.mp (certifiedP h j hj) w hwj
+
+/-- constructs of a node whose outcome is not a function of the arguments (map iteration, `go`, `select`, clock, randomness,
+    environment), as recorded by the translator -/
+def nondetOf (i : Nat) : List String := (nondet.filter (fun x => x.1 == i)).map (·.2)
 
 /-- resolve node names; `none` if a name is not a node of the current source -/
 def resolve (ns : List String) : Option (List Nat) := ns.mapM (fun n => names.idxOf? n)
@@ -120,13 +133,18 @@ def parseNames : List String := ["lucene.Parse", "lucene.ToPostgres", "lucene.To
 
 def decodeNames : List String := ["expr.Expression.UnmarshalJSON"]
 
+/-- Parse alone (ToPostgres also reaches the initialiser of the package-level driver) -/
+def pureParseNames : List String := ["lucene.Parse", "lucene.WithDefaultField"]
+
 def consumerRoots : List Nat := (resolve consumerNames).getD []
 def parseRoots : List Nat := (resolve parseNames).getD []
 def decodeRoots : List Nat := (resolve decodeNames).getD []
+def pureParseRoots : List Nat := (resolve pureParseNames).getD []
 
 /-- every named entry point is a function of the current source (a renamed or removed entry breaks this, not silently the rest) -/
 theorem entry_points_exist :
     (resolve consumerNames).isSome = true ∧ (resolve parseNames).isSome = true ∧ (resolve decodeNames).isSome = true ∧
+    (resolve pureParseNames).isSome = true ∧
     (consumerRoots ++ parseRoots ++ decodeRoots).all (fun r => exported.contains r) = true := by decide +kernel
 
 /-! ## The facts, for the source as it is now -/
@@ -163,6 +181,34 @@ theorem parse_writes_only_its_own_state :
 theorem decode_writes_only_the_receiver :
     ∀ j, Reach decodeRoots j → ∀ w ∈ writesOf j, decodeOK w = true :=
   certified (by decide +kernel)
+
+/-! ## Determinism: no construct whose outcome depends on anything but the arguments -/
+
+/-- the read-only consumers and everything reachable from them never iterate over a map (Go randomises the order), start a
+    goroutine, `select`, or call into time / rand / os / runtime: their results are functions of their arguments -/
+theorem consumers_use_no_nondeterministic_construct :
+    ∀ j, Reach consumerRoots j → nondetOf j = [] := by
+  have h : certificateP consumerRoots (fun i => (nondetOf i).isEmpty) = true := by decide +kernel
+  intro j hj
+  simpa using certifiedP h j hj
+
+/-- the same for Parse, and for the decoder -/
+theorem parse_uses_no_nondeterministic_construct :
+    ∀ j, Reach (pureParseRoots ++ decodeRoots) j → nondetOf j = [] := by
+  have h : certificateP (pureParseRoots ++ decodeRoots) (fun i => (nondetOf i).isEmpty) = true := by decide +kernel
+  intro j hj
+  simpa using certifiedP h j hj
+
+/-- over the WHOLE API surface the only such construct is the iteration over `driver.Shared` with which `NewPostgresDriver`
+    copies the table into a fresh map (the result of copying a map does not depend on the order) -/
+theorem api_nondeterminism_is_one_map_copy :
+    ∀ j, Reach exported j → ∀ c ∈ nondetOf j,
+      names[j]? = some "driver.NewPostgresDriver" ∧ c = "maprange:map[expr.Operator]driver.RenderFN" := by
+  have h : certificateP exported (fun i => (nondetOf i).all (fun c =>
+      names[i]? == some "driver.NewPostgresDriver" && c == "maprange:map[expr.Operator]driver.RenderFN")) = true := by decide +kernel
+  intro j hj c hc
+  have := List.all_eq_true.mp (certifiedP h j hj) c hc
+  simpa using this
 
 /-! ## Non-vacuity: the roots are there, the closures are large, and the predicates do reject things -/
 
